@@ -738,6 +738,17 @@ func validatorFacts(w *World, r *Report, val *ssa.Function) map[confFact]bool {
 			}
 			lk, isLk := ex.Tuple.(*ssa.Lookup)
 			return isLk && symOf(lk.Index).String() == "Conf.Mode" && isLiteralMap(lk.X)
+		}) || implied(cond, func(a, b *ssa.BasicBlock) bool {
+			// the same membership test written as a switch: conf.Mode == "<literal>"
+			x, op, y, ok := edgeFact(a, b)
+			if !ok || op != token.EQL {
+				return false
+			}
+			if _, isK := constString(x); isK {
+				x, y = y, x
+			}
+			lit, isK := constString(y)
+			return isK && lit != "" && symOf(x).String() == "Conf.Mode"
 		}) {
 			facts[confFact{"member", "Conf.Mode", cond}] = true
 		}
@@ -868,6 +879,25 @@ func modeKeys(w *World, val *ssa.Function) (keys []string, table *ssa.Global, in
 			}
 		})
 	})
+	if len(keys) == 0 && table == nil {
+		// no table: the literals conf.Mode is compared with for equality (a switch over the mode)
+		seen := map[string]bool{}
+		allInstrs(val, func(i ssa.Instruction) {
+			bo, ok := i.(*ssa.BinOp)
+			if !ok || bo.Op != token.EQL {
+				return
+			}
+			x, y := bo.X, bo.Y
+			if _, isK := constString(x); isK {
+				x, y = y, x
+			}
+			lit, isK := constString(y)
+			if isK && lit != "" && strings.HasSuffix(symOf(x).String(), ".Mode") && !seen[lit] {
+				seen[lit] = true
+				keys = append(keys, lit)
+			}
+		})
+	}
 	sort.Strings(keys)
 	return
 }
